@@ -7,7 +7,7 @@
    sum_w, sum_by_w, mean_w, abs_w), and so do the arithmetic callbacks of the
    harness (-x, |x|).  C13_Props relates them to the unbounded reading. *)
 
-From Gogu Require Import Base C13_Model.
+From Gogu Require Import Base C13_Model C13_ModelFloat.
 
 (* predicate family: (code, arg) *)
 Definition pred_of (c a : Z) : Z -> bool :=
@@ -64,6 +64,92 @@ Definition rle (l : list Z) : list Z :=
   match l with [] => [] | x :: l' => rle_from x 1 l' end.
 Fixpoint diffs (prev : Z) (l : list Z) : list Z :=
   match l with [] => [] | x :: l' => (x - prev) :: diffs x l' end.
+
+(* ---------- the float64 instantiations (C13_ModelFloat): fn 50..68 ----------
+   A float64 travels as its 64-bit pattern read as an int64; every NaN is the one
+   pattern 0x7FF8000000000000 (the harness canonicalises what the code returns).
+     50 Sum zs        51 SumBy k zs     52 Mean zs        53 Min zs...      54 Max zs...
+     55 FindMin zs    56 FindMax zs     57 FindMinBy k zs 58 FindMaxBy k zs 59 Abs x
+     60 Clamp n lo hi 61 InRange n lo hi 62 Compare cmp a b 63 Less a b     64 Equal a b
+     65 Range args    66 RangeRight args 67 FindMinByKey key maps  68 FindMaxByKey key maps
+   key functions k: 0 id, 1 -x, 2 const +0, 3 math.Abs;  comparators: 0 (<), 1 (>) *)
+Definition fkey_of (c : Z) : f64 -> f64 :=
+  match c with
+  | 0 => fun x => x
+  | 1 => fneg
+  | 2 => fun _ => fpz
+  | _ => fabs_bit
+  end.
+Definition fcmp_of (c : Z) : f64 -> f64 -> bool :=
+  match c with 0 => flt | _ => fgt end.
+Definition fbits1 (x : f64) : list Z := [bits_of_f64 x].
+Definition enc_fres (r : fres) : list Z :=
+  match r with
+  | FOk l => 0 :: enc_zs (map bits_of_f64 l)
+  | FErr _ => [1; 1]
+  | FFuel => [2]
+  | FHang => [3]
+  end.
+Fixpoint fpairs_of (l : list Z) : famap :=
+  match l with
+  | k :: v :: l' => (k, f64_of_bits v) :: fpairs_of l'
+  | _ => []
+  end.
+(* iteration budget of the float Range loops; the harness sends only calls that
+   end (or provably hang) within 5000 iterations *)
+Definition frange_cap : nat := Z.to_nat 20000.
+
+Definition c13f_run (fn : Z) (a : list Z) : list Z :=
+  let fzs (f : list f64 -> list Z) :=
+      match rd_zs a with Some (l, []) => f (map f64_of_bits l) | _ => wire_error end in
+  let k_fzs (f : (f64 -> f64) -> list f64 -> list Z) :=
+      match a with
+      | c :: a' => match rd_zs a' with Some (l, []) => f (fkey_of c) (map f64_of_bits l) | _ => wire_error end
+      | _ => wire_error
+      end in
+  let fbykey (g : list famap -> Z -> res f64) :=
+      match a with
+      | key :: a' => match rd_zss a' with
+                     | Some (ms, []) => enc_r1 fbits1 (g (map fpairs_of ms) key)
+                     | _ => wire_error end
+      | _ => wire_error
+      end in
+  match fn with
+  | 50 => fzs (fun l => fbits1 (fsum l))
+  | 51 => k_fzs (fun k l => fbits1 (fsum_by k l))
+  | 52 => fzs (fun l => fbits1 (fmean l))
+  | 53 => fzs (fun l => fbits1 (fmin_of l))
+  | 54 => fzs (fun l => fbits1 (fmax_of l))
+  | 55 => fzs (fun l => fbits1 (ffind_min l))
+  | 56 => fzs (fun l => fbits1 (ffind_max l))
+  | 57 => k_fzs (fun k l => fbits1 (ffind_min_by k l))
+  | 58 => k_fzs (fun k l => fbits1 (ffind_max_by k l))
+  | 59 => match a with [x] => fbits1 (fabs_go (f64_of_bits x)) | _ => wire_error end
+  | 60 => match a with
+          | [n; lo; hi] => fbits1 (fclamp (f64_of_bits n) (f64_of_bits lo) (f64_of_bits hi))
+          | _ => wire_error end
+  | 61 => match a with
+          | [n; lo; hi] => enc_bool (fin_range (f64_of_bits n) (f64_of_bits lo) (f64_of_bits hi))
+          | _ => wire_error end
+  | 62 => match a with
+          | [c; x; y] => [fcompare_go (fcmp_of c) (f64_of_bits x) (f64_of_bits y)]
+          | _ => wire_error end
+  | 63 => match a with [x; y] => enc_bool (fless_go (f64_of_bits x) (f64_of_bits y)) | _ => wire_error end
+  | 64 => match a with [x; y] => enc_bool (fequal_go (f64_of_bits x) (f64_of_bits y)) | _ => wire_error end
+  | 65 => fzs (fun l => enc_fres (frange frange_cap l))
+  | 66 => fzs (fun l => enc_fres (frange_right frange_cap l))
+  | 67 => fbykey ffind_min_by_key
+  | 68 => fbykey ffind_max_by_key
+  | _ => wire_error
+  end.
+
+(* "stops before reaching it", read on the returned terms: every term of a float
+   Range / RangeRight result lies strictly before end (the last argument) *)
+Definition frange_before_end (args l : list f64) : bool :=
+  match rev args with
+  | e :: _ => if fgt e fpz then forallb (fun t => flt t e) l else forallb (fun t => flt e t) l
+  | [] => true
+  end.
 
 Definition c13_run (w : list Z) : list Z :=
   match w with
@@ -145,7 +231,7 @@ Definition c13_run (w : list Z) : list Z :=
       | 43 => zs (fun l => enc_r1 enc_zs (range_right_w 8 range_cap l))
       | 44 => zs (fun l => enc_r1 enc_zs (range_u 8 range_cap l))
       | 45 => zs (fun l => enc_r1 enc_zs (range_right_u 8 range_cap l))
-      | _ => wire_error
+      | _ => c13f_run fn a
       end
   | [] => wire_error
   end.
@@ -160,12 +246,35 @@ Definition c13_run (w : list Z) : list Z :=
    reported: Clamp with lo > hi (the shipped code returns lo for num <= lo and
    hi otherwise), and the mean of an empty slice (the shipped code panics:
    integer division by zero). *)
-Definition c13_holds (w obs : list Z) : bool :=
+Definition c13_agree (w obs : list Z) : bool :=
   match w, obs with
   | [23; n; lo; hi], [_] => if hi <? lo then true else zlist_eqb obs (c13_run w)
   | [32; lo; hi], _ :: _ => if hi <? lo then true else zlist_eqb obs (c13_run w)
   | [20; 0], _ :: _ | [31; 0], _ :: _ => true
+  | [60; n; lo; hi], [_] => if flt (f64_of_bits hi) (f64_of_bits lo) then true else zlist_eqb obs (c13_run w)
   | _, _ => zlist_eqb obs (c13_run w)
   end.
 
-Definition c13_agree (w obs : list Z) : bool := c13_holds w obs.
+(* The float64 instantiations (fn 50..68): IEEE arithmetic determines every
+   result bit for bit (C13_PropsFloat), so the observation must be the model's —
+   NaN, infinities and -0 included; only Clamp with hi < lo is outside the domain
+   as for the integers.  Range / RangeRight at float64 is the exception where the
+   CODE (and hence its model) does not meet the property text: "stops before
+   reaching end" is judged here on the returned terms themselves
+   ([frange_before_end]), and a call that does not return (observation [3]) never
+   satisfies it.  C13_PropsFloat.C13_frange_reaches_end_refuted /
+   C13_frange_hangs_refuted give the inputs; the failing cases are attributed to
+   the known finding KF-C13-float-range (tools/matchers.d/c13.py). *)
+Definition c13_holds (w obs : list Z) : bool :=
+  c13_agree w obs &&
+  match w, obs with
+  | fn :: a, 0 :: o =>
+      if (fn =? 65) || (fn =? 66) then
+        match rd_zs a, rd_zs o with
+        | Some (args, []), Some (l, []) => frange_before_end (map f64_of_bits args) (map f64_of_bits l)
+        | _, _ => false
+        end
+      else true
+  | fn :: _, [3] => negb ((fn =? 65) || (fn =? 66))
+  | _, _ => true
+  end.
